@@ -68,6 +68,9 @@ def space(tier, seed):
         pool = [sess(st, a, sy) for st in stations for a in arrivals for sy in stays]
         kmax = 4 if thorough else 3
         for ss in S.session_subsets(pool, 1, kmax):
+            # the (optional) estimated departure differs from the real one: unplugging is driven by `departure` alone
+            for j, s in enumerate(ss):
+                s["ed"] = s["d"] + (2, -1, 1)[j % 3] if s["d"] + (2, -1, 1)[j % 3] > s["a"] else s["d"] + 3
             for sk, k in (("max1", None), ("max1", 1), ("max3", 2), ("unc", 1), ("fcfs", 1)):
                 items.append({"net": netname, "sessions": ss, "sched": SCHEDS[sk], "sk": sk, "k": k, "period": 1})
     # ---- block B: configurations (fewer sessions, every option) ---------------
@@ -81,6 +84,8 @@ def space(tier, seed):
         ]
         scheds = ["max1", "max3", "empty"] + ([] if netname == "N3" else ["unc", "fcfs"])
         for ss in S.session_subsets(pool, 1, 2 if not thorough else 2):
+            for j, s in enumerate(ss):
+                s["ed"] = s["d"] + (3, 1)[j % 2]
             # keep the block finite but complete over its declared sub-alphabet: 2-subsets only
             # when they share a station (back-to-back reuse) or an event period
             if len(ss) == 2:
